@@ -1362,6 +1362,14 @@ func keepAlive(
 				c.minCommitTSMgr.tryUpdate(now, ttlAccess)
 			}
 
+			// The ttlManager may have been closed or reset (the transaction has ended, or its primary has changed)
+			// while the timestamp was being fetched. Do not send a heartbeat on behalf of a stopped loop.
+			select {
+			case <-closeCh:
+				return
+			default:
+			}
+
 			newTTL := uptime + atomic.LoadUint64(&ManagedLockTTL)
 			logutil.Logger(bo.GetCtx()).Info("send TxnHeartBeat",
 				zap.Uint64("startTS", c.startTS),
